@@ -115,7 +115,8 @@ WS_CHARS = [" ", "\u00a0", "\u2028", "\u3000", "\u0085", "  "]
 
 
 def gen_dup_tree(r, n_classes=6, max_members=4, hostile_p=0.0, n_dirs=4, max_depth=3, hardlinks=True,
-                 lens=None, decoys=True, extra_offsets=(), min_len=1, roots=1, ws_twins=0.0, concat_collisions=0.0):
+                 lens=None, decoys=True, extra_offsets=(), min_len=1, roots=1, ws_twins=0.0, concat_collisions=0.0,
+                 prefix_roots=False):
     """A tree with content classes (identical files), same-length single-byte decoys, hard links.
 
     Returns (spec, meta) where meta lists classes: {"fam","len","flip","members":[relpaths]}."""
@@ -125,7 +126,8 @@ def gen_dup_tree(r, n_classes=6, max_members=4, hostile_p=0.0, n_dirs=4, max_dep
     dirs = []
     root_names = []
     for i in range(roots):
-        rn = "r%d" % i
+        # prefix_roots: each root's name is a string prefix (not a path prefix) of the next one's
+        rn = ["r1", "r10", "r10-b", "r10-bak"][i] if prefix_roots and i < 4 else "r%d" % i
         root_names.append(rn)
         dirs.append(rn)
         entries.append({"t": "d", "p": rn})
